@@ -1561,11 +1561,28 @@ class Cell(Bucket):
 
     def _fix_invalid_placements(self, queue, servers):
         """If app is placed on non-existent server, set server to None.
+
+        If app was assigned to a different partition, or the traits it
+        requires changed, and its server no longer qualifies, remove it from
+        the server so that it is placed again.
         """
         for app in queue:
-            if app.server and app.server not in servers:
+            if not app.server:
+                continue
+
+            if app.server not in servers:
                 app.server = None
                 app.evicted = True
+                app.release_identity()
+                continue
+
+            server = servers[app.server]
+            if ((app.allocation is not None and
+                 app.allocation.label not in server.labels) or
+                    (app.traits != 0 and not server.traits.has(app.traits))):
+                _LOGGER.info('Placement no longer valid: %s on %s',
+                             app.name, server.name)
+                server.remove(app.name)
                 app.release_identity()
 
     def _record_rank_and_util(self, queue):
